@@ -141,7 +141,10 @@ func (k c09) Run(c *rt.Ctx) {
 		}
 	} else {
 		numArg = func() *gen.Node {
-			switch r.Intn(4) {
+			switch r.Intn(5) {
+			case 4:
+				// a list length (the one scalar function with a plain machine-int result)
+				return gen.Call("len", gen.Call("split", gen.Key(), gen.Str([]string{"a", "|", "b"}[r.Intn(3)])))
 			case 0:
 				return gen.Call("int", gen.Value())
 			case 1:
